@@ -72,3 +72,161 @@ prop(
     ),
     assumptions=['the _simplify* family and helper calls return fresh nodes or nodes already bounded by their own construction sites (assumed, see DESIGN M2 (g))'],
 )
+
+prop(
+    'C01',
+    ['G1', 'G2', 'G3', 'G4', 'G5', 'G6', 'G7', 'F1', 'D4', 'T1'],
+    explanation=(
+        'Grammar model (both embedded grammars and both .lark assemblies compiled by lark; rule list, terminal list, LALR '
+        'states inspected) + flow extraction of all transformer callbacks. G1 the two copies compile to the same rules/'
+        'terminals/ignore list. G2 the binary-operator chain derived from the compiled rules is implies/iff < or < and < '
+        'not/quantifier < relational (non-recursive) < +,- < *,/ < **, each level left-recursive, parentheses re-enter at '
+        'the loosest level inside an inlined rule. G3 every operator lexeme has exactly one table row; quantifier lexemes '
+        '== QuantifierType values. G4 in every LALR state (contextual lexer replicated: priority, width, unless re-typing) '
+        'no alphabetic keyword terminal can match a proper prefix of an identifier run when a name or number could follow. '
+        'G5 WS ignored, no terminal matches whitespace, punctuation filtered. G6 every reachable rule has a callback whose '
+        'arity / length assertions fit every child layout (layouts computed as lark\'s ChildFilter does, placeholders '
+        'included). G7 CONSTANT/TIME_UNIT/TRUE/FALSE/bracket lexemes agree with what the callbacks dispatch on. F1 for '
+        'each of the 35 AST-building callbacks the constructor term (factories inlined) routes child i to the field the '
+        'intended-tree table names: scope/pattern roles, trigger vs behaviour per keyword, operand order and operator '
+        'position, right-nested disjunctions with all alternatives in order, range flags from the outer brackets, literal '
+        'values; plus the keyword skeleton of every phrase rule. D4 ms divides by 1000, s is identity. T1 operator table. '
+        'Not decided: that lark executes its own tables faithfully; int()/float() on every NUMBER lexeme.'
+    ),
+)
+
+prop(
+    'C02',
+    ['D1', 'A6', 'M3', 'M6', 'S3', 'S8'],
+    explanation=(
+        'D1: HplProperty.__attrs_post_init__ reaches sanity_check on every path; per pattern type (if-chain folded with the '
+        'enum predicate table) the ordered _check_* calls and the provenance of their `available` argument equal the '
+        'binding-order table (activator; trigger->behaviour, behaviour->trigger for requires; terminator sees only the '
+        'activator aliases); helper bodies: refs checked against available, re-binding checked, own aliases + available '
+        'returned; leaf loops raise HplSanityError with the right polarity; duplicate channels in a disjunction; three '
+        'quantifier hygiene errors. A6: scope/pattern presence validators. M3/M6: but() goes through evolve so every copy '
+        're-runs the check. S3/S8: own alias discarded, disjunction references are the plain union. Not decided: membership '
+        'arithmetic inside the three-line loops beyond polarity/operands.'
+    ),
+)
+
+prop(
+    'C03',
+    ['A3', 'A4', 'T1', 'T2', 'M1', 'M3', 'M6'],
+    explanation=(
+        'A3: each of the 13 expression-typed child fields is narrowed on construction to exactly its parameter type (cast '
+        'converter or forcing validator; operand1 vs parameter1, operand2 vs parameter2), both sides of =/!= are unified and '
+        'stored back, bound-variable occurrences are checked against the domain element type. A4: operator/function nodes '
+        'take data_type from the definition, default_data_type per class, literal type by value kind, own-type validator. '
+        'T1/T2: parameter and result types of 18 operators and 27 functions equal the reference. M1/M3/M6: parser and '
+        'rewriter create nodes only through those validating constructors. Not decided: _all_refs_same_type beyond presence.'
+    ),
+)
+
+prop(
+    'C04',
+    ['T1n', 'T2n', 'A3n', 'L2', 'L3', 'G3', 'D1'],
+    explanation=(
+        'Necessary conditions only: no operator/function parameter type or child-field constraint is narrower than the '
+        'reference (T1n/T2n/A3n), no overload is missing, compatibility decisions are intersections (L2/L3: cast/can_be), '
+        'every grammatical operator has a table row (G3), alias availability along the binding chain is not lost (D1). '
+        'Not decided: completeness of inference for every term; schema side is C17.'
+    ),
+)
+
+prop(
+    'C05',
+    ['T1w', 'T2w', 'A3p', 'M6'],
+    explanation=(
+        'Necessary conditions only: no operator/function parameter type is wider than the reference and no overload was '
+        'added (T1w/T2w); every expression-typed child slot has a constraint that is not wider than its parameter type '
+        '(A3p); the parser builds through constructors (M6). Not decided: cross-conjunct reference clashes beyond presence '
+        'of the check, arity logic inside FunctionSignature.accepts.'
+    ),
+)
+
+prop(
+    'C07',
+    ['X4', 'X3a', 'X1', 'X6', 'S6', 'G6', 'G7', 'G3', 'X5'],
+    explanation=(
+        'X4: the lark call sits in a try whose handlers cover UnexpectedToken/UnexpectedCharacters, each handler raises '
+        'HplSyntaxError built only from attributes every handled exception class defines (read from lark\'s own source); '
+        'no other try in parser.py except the int()/float() fallback. X3a: over a name-based call graph from the five '
+        'parse_* functions and all transformer callbacks (constructors expand to converters, validators, post-init), every '
+        'reachable raise site raises one of the four documented classes. X1: no unbound local. G6/G7/G3: no arity, index, '
+        'KeyError or unknown-operator failure for grammatical input. S6: no abstract stub reachable. X6: no state on the '
+        'transformer/parser objects, no module-level mutable state written or handed out. X5: assert census (informational). '
+        'Not decided: termination/recursion depth, implicit AttributeError on dynamically typed receivers.'
+    ),
+)
+
+prop(
+    'C08',
+    ['T3', 'T4', 'D5', 'X3b', 'X1', 'X2', 'T6'],
+    explanation=(
+        'Only the table-driven parts of the simplifier: T3 commutative/associative flags equal the mathematical ground truth '
+        '(used by _pre_simplify_binop to commute/re-associate), T4 INVERSE_OPERATORS is the mirror involution (used to flip '
+        'comparisons), T6 is_* predicates and function-name dispatch strings name the right rows, D5 re-wrapping to the '
+        'vacuous predicates, X3b the only explicit raise is ZeroDivisionError under a literal-zero divisor test, X1/X2 no '
+        'unbound local / index beyond the smallest overload. NOT decided: the ~60 value-dependent rewrite identities.'
+    ),
+)
+
+prop(
+    'C11',
+    ['D2', 'T7', 'M3', 'S8'],
+    explanation=(
+        'D2: canonical_form evaluated per pattern type x scope type (20 cells, dispatch folded with the enum predicate '
+        'tables): split field of the pattern is behaviour (absence/requirement/prevention), trigger (response) or none '
+        '(existence); split field of the scope is activator (after, after-until) or none; alternatives come from '
+        '<field>.simple_events() unfiltered; the result is the scope-major product of property.but(scope=, pattern=) copies; '
+        '[property] itself when nothing splits; nothing but the kinds decides. T7 safety/liveness partition. M3 but() carries '
+        'metadata and everything else. S8 simple_events() order.'
+    ),
+)
+
+prop(
+    'C12',
+    ['D2s', 'M3', 'T7'],
+    explanation=(
+        'The repository has no trace semantics; the code-dependent part of the property is which positions are split and '
+        'that copies differ in nothing else. D2s: the split set extracted from canonical_form (20 cells) is inside the '
+        'sound-position table {absence/requirement/prevention behaviour, response trigger, after* activator}. The '
+        'distribution lemma (forall/not-exists over a union of occurrence sets distributes as conjunction; exists does not) '
+        'is the trusted base.'
+    ),
+    assumptions=['distribution lemma for scope windows (DESIGN.md C12)'],
+)
+
+prop(
+    'C14',
+    ['X1', 'X2', 'X3b', 'X5r'],
+    explanation=(
+        'X1 definite assignment over all 614 functions; X2 call.arguments[k] vs the smallest overload of the function the '
+        'branch dispatches on; X3b explicit raises of rewrite.py are the documented ones; X5r assert census of everything '
+        'reachable from the public rewrite functions (informational). Not decided: TypeError/HplSanityError from '
+        're-validation inside copies (assumed infeasible for valid inputs), shape assertions.'
+    ),
+)
+
+prop(
+    'C17',
+    ['S5', 'F3', 'T5', 'A5', 'X8'],
+    explanation=(
+        'S5 the generic walk pushes all children of every non-accessor node and accessors visit object chain and index; F3 '
+        'provenance of the alias -> type mapping; T5 (u)intN bounds computed from the bit width; A5 token validators '
+        '(max>=min, length>=-1, contains_index, enumerated kinds, base types); X8 no Mapping iterated as pairs without '
+        '.items(). Not decided: the iff for every schema, comparison results inside _get_next_token.'
+    ),
+)
+
+prop(
+    'C18',
+    ['G8', 'F2', 'X6', 'G6'],
+    explanation=(
+        'G8 hpl_file is a non-nullable left-recursive list of properties, metadata keys are exactly id/title/description, '
+        'LALR tables build for every start. F2 hpl_file keeps all children in order (no converter that reorders or '
+        'deduplicates), hpl_property attaches exactly its own annotations to the new object, metadata builds a fresh dict, '
+        'tests every key for repetition and raises HplSyntaxError. X6 no state on the shared transformer. G6 arity.'
+    ),
+)
